@@ -316,9 +316,18 @@ def analyse_log(mod, fname, base, bits):
     term, w = lane_term(mod, fname)
     ex = RFN.Extract()
     cs = strip_special(ex.cases(term), ex)
-    if len(cs) != 1:
-        raise Mismatch('%d arithmetic cases, the template has one' % len(cs))
-    f = cs[0][1]
+    if not cs or len(cs) > 4:
+        raise Mismatch('%d arithmetic cases' % len(cs))
+    worst = None
+    for (_c, f_) in cs:
+        r_ = _analyse_log_case(ex, f_, w, base, bits)
+        if worst is None or r_['ulp_exact'] > worst['ulp_exact']:
+            worst = r_
+    worst['select_cases'] = len(cs)
+    return worst
+
+
+def _analyse_log_case(ex, f, w, base, bits):
     M = DK = None
     for i in sorted(f.atoms()):
         t = T.single_term(ex.atoms[i])
@@ -386,21 +395,33 @@ def analyse_log(mod, fname, base, bits):
             'ulp': float(ulps(rho, bits)), 'ulp_exact': ulps(rho, bits), 'degree': (n0p.deg(), df.deg())}
 
 
-TRIG = ['sin', 'cos']
+TRIG = ['sin', 'cos', 'tan']
+INV = ['atan', 'asin']
 FUNCS = [('exp', analyse_exp, 'e'), ('exp2', analyse_exp, '2'), ('exp10', analyse_exp, '10'),
-         ('log', analyse_log, 'e'), ('log2', analyse_log, '2'), ('log10', analyse_log, '10')]
+         ('log', analyse_log, 'e'), ('log2', analyse_log, '2'), ('log10', analyse_log, '10'),
+         # log1p(x) = k ln 2 + log m with 1 + x = m 2^k (the correction term for the rounding of 1 + x is zero in the real reading)
+         ('log1p', analyse_log, 'e')]
 
 
 def applicable(fn, bits, cfgname):
     """the log family for double needs the direct int64->double conversion (the emulated conversions of the narrower
     instruction sets are bit constructions, decided as conversions by C06)"""
-    if fn in ('log', 'log2', 'log10') and bits == 64:
+    if fn in ('log', 'log2', 'log10', 'log1p') and bits == 64:
         return cfgname.startswith('avx512')
     return True
 
 
+GROUPS = ('explog', 'trig', 'inv', 'cont')
+BINADES = [True]      # the binade-boundary clause (every binade of the normal range) -- quick tier: first configuration only
+# tier continuity: function -> the property's bound in ulp (float column / double column; None = no frozen bound known here)
+CONT = {'exp': (4.5, 4.5), 'exp2': (4.5, 4.5), 'exp10': (4.5, 4.5), 'expm1': (4.5, 4.5), 'log': (4.5, 4.5), 'log2': (4.5, 4.5), 'log10': (4.5, 4.5), 'log1p': (4.5, 4.5),
+        'sin': (4.5, 4.5), 'cos': (4.5, 4.5), 'tan': (4.5, 4.5), 'asin': (4.5, 4.5), 'acos': (4.5, 4.5), 'atan': (4.5, 4.5), 'sinh': (4.5, 4.5), 'cosh': (4.5, 4.5), 'tanh': (4.5, 4.5),
+        'asinh': (4.5, 4.5), 'acosh': (4.5, 4.5), 'atanh': (4.5, 4.5), 'cbrt': (4.5, 4.5), 'erf': (4.5, None), 'erfc': (128, None)}
+
+
 def analyse(job):
-    cfgname, bits = job
+    cfgname, bits, group = job[:3]
+    BINADES[0] = job[3] if len(job) > 3 else True
     c = CF.BY_NAME[cfgname]
     text, names = c14.math_tu(c.arch)
     ll, err = build.compile_tu(text, c.flags)
@@ -409,8 +430,56 @@ def analyse(job):
     mod = ir.load_ll(ll)
     tn = 'f32' if bits == 32 else 'f64'
     out = {'cfg': cfgname, 'res': []}
-    from . import c10trig
-    for fn in TRIG:
+    from . import c10trig, c10inv, c10cont
+    for fn in (sorted(CONT) if group == 'cont' else ()):
+        bound = CONT[fn][0 if bits == 32 else 1]
+        if bound is None:
+            continue
+        key = 'continuity|%s|%s|%s' % (fn, tn, cfgname)
+        thr = Fr(bound) + ROUNDING_ALLOWANCE_ULP
+        try:
+            cr = c10cont.analyse_cont(mod, 'm_%s_%s' % (fn, tn), bits, thr, binades=BINADES[0])
+        except (Mismatch, NotReal) as e:
+            out['res'].append((key, 'skip', {'why': str(e)[:200]}))
+            continue
+        except Exception as e:          # a path the evaluator cannot follow: no verdict for this function
+            out['res'].append((key, 'skip', {'why': 'not analysed: %s %s' % (type(e).__name__, str(e)[:160])}))
+            continue
+        bad = [b for b in cr['boundaries'] if not b['ok']]
+        summary = {'boundaries': [(b['x0'], round(b['jump_ulp'], 3)) for b in cr['boundaries']], 'skipped_points': cr['skipped'][:8], 'paths': cr['paths'],
+                   'ulp': max([b['jump_ulp'] for b in cr['boundaries']] or [0.0]), 'threshold_jump_ulp': float(2 * thr), 'kernel_rel_err': 0.0, 'const_rel_err': 0.0, 'n_boundaries': len(cr['boundaries']), 'binade_boundaries': cr.get('binade_boundaries', 0)}
+        if bad:
+            summary['bad_boundary'] = bad[0]
+            out['res'].append((key, 'bad', summary))
+        else:
+            out['res'].append((key, 'ok', summary))
+    for fn in (INV if group == 'inv' else ()):
+        key = 'kernel|%s|%s|%s' % (fn, tn, cfgname)
+        try:
+            tr = c10inv.analyse_inv(mod, 'm_%s_%s' % (fn, tn), fn, bits, THR)
+        except (Mismatch, NotReal) as e:
+            out['res'].append((key, 'mismatch', {'why': str(e)[:300]}))
+            continue
+        except (ValueError, KeyError, IndexError, ZeroDivisionError, RecursionError, TypeError, AttributeError) as e:
+            out['res'].append((key, 'mismatch', {'why': 'analysis error %r' % (e,)}))
+            continue
+        cases = tr['cases']
+        mism = [c_ for c_ in cases if c_['verdict'] in ('mismatch', 'skipped')]
+        bad = [c_ for c_ in cases if c_['verdict'] == 'bad']
+        okc = [c_ for c_ in cases if c_['verdict'] == 'ok']
+        summary = {'cases': len(cases), 'cases_ok': len(okc), 'ulp': max([c_['ulp'] for c_ in okc] or [0.0]), 'kernel_rel_err': 0.0, 'const_rel_err': 0.0,
+                   'pieces': [(c_['x_range'], round(c_['ulp'], 4), c_.get('offset_multiple_of_pio4'), c_.get('slope'), tuple(round(v, 5) for v in c_.get('u_range', (0, 0)))) for c_ in okc]}
+        if bad:
+            b0 = bad[0]
+            summary.update(bad_case=dict(b0, path='select case'), ulp=b0['ulp'])
+            out['res'].append((key, 'bad', summary))
+        elif mism:
+            out['res'].append((key, 'mismatch', {'why': 'case %s: %s' % (mism[0].get('x_range'), mism[0].get('why', ''))}))
+        elif len(okc) < 2:
+            out['res'].append((key, 'mismatch', {'why': 'only %d analysable cases found' % len(okc)}))
+        else:
+            out['res'].append((key, 'ok', summary))
+    for fn in (TRIG if group == 'trig' else ()):
         key = 'kernel|%s|%s|%s' % (fn, tn, cfgname)
         try:
             tr = c10trig.analyse_trig(mod, 'm_%s_%s' % (fn, tn), fn, bits, THR)
@@ -438,7 +507,7 @@ def analyse(job):
             out['res'].append((key, 'mismatch', {'why': 'only %d analysable cases (tiers) found' % len(okc)}))
         else:
             out['res'].append((key, 'ok', summary))
-    for (fn, an, par) in FUNCS:
+    for (fn, an, par) in (FUNCS if group == 'explog' else ()):
         if not applicable(fn, bits, cfgname):
             continue
         key = 'kernel|%s|%s|%s' % (fn, tn, cfgname)
@@ -458,7 +527,9 @@ def replay(pid, bits, a):
     d = json.load(open(a.replay))
     key = d.get('obligation') or d.get('key')
     (_, fn, tn, cfg) = key.split('|')
-    m = analyse((cfg, bits))
+    m = {'res': []}
+    for g in GROUPS:
+        m['res'] += analyse((cfg, bits, g)).get('res', [])
     for (k, st, dd) in m.get('res', []):
         if k == key:
             print(key, st, json.dumps(dd, default=str)[:600])
@@ -475,9 +546,11 @@ def run_for(pid, bits, a):
     r = report.Run(pid, a.tier, 'other')
     cfgs = THOROUGH if a.tier == 'thorough' else CONFIGS
     nob = 0
+    ncont = 0
+    not_analysed = []
     rows = []
-    with ProcessPoolExecutor(max_workers=min(10, len(cfgs))) as ex:
-        for m in ex.map(analyse, [(c, bits) for c in cfgs]):
+    with ProcessPoolExecutor(max_workers=min(14, len(cfgs) * len(GROUPS))) as ex:
+        for m in ex.map(analyse, [(c, bits, g, (a.tier == 'thorough' or c == cfgs[0])) for c in cfgs for g in GROUPS]):
             if 'broken' in m:
                 r.broke(m['broken'])
                 continue
@@ -485,25 +558,45 @@ def run_for(pid, bits, a):
                 if st == 'mismatch':
                     r.broke('%s: kernel does not match its reviewed template: %s' % (key, d['why']))
                     continue
+                if st == 'skip':
+                    not_analysed.append({'obligation': key, 'why': d['why']})
+                    continue
+                if key.startswith('continuity|'):
+                    nob += 1
+                    ncont += d.get('n_boundaries', 0)
+                    rows.append(dict(d, obligation=key))
+                    if st == 'bad':
+                        b = d['bad_boundary']
+                        if b.get('binade'):
+                            r.violation(key, 'at the binade boundary x = %s the function (read as a real function) differs by %.4g ulp between the boundary and the float just below it (value %.6g; worst of every binade of the normal range): the exponent / mantissa split of the argument is inconsistent there' % (
+                                b['x0_exact'], b['jump_ulp'], b['value']), dict(d, obligation=key))
+                            continue
+                        r.violation(key, 'at the tier switch point x = %s the two sides of the function (read as real functions, every lane holding the point) differ by %.4g ulp (value %.6g): more than twice the bound %s + %s ulp, so at least one tier is further than the bound from the function beside the switch point' % (
+                            b['x0_exact'] if len(b['x0_exact']) < 40 else b['x0'], b['jump_ulp'], b['value'], d['threshold_jump_ulp'] / 2 - float(ROUNDING_ALLOWANCE_ULP), float(ROUNDING_ALLOWANCE_ULP)), dict(d, obligation=key))
+                    continue
                 nob += 1
                 rows.append(dict(d, obligation=key))
                 if st == 'bad' and 'bad_case' in d:
                     b = d['bad_case']
                     r.violation(key, 'on the control path %s (|x| in [%.6g, %s]) the reduced argument ranges over %s and the kernel there is %s ulp from sin/cos (approximation %s, reduction constants %s, unfused k*c products %s ulp)%s: above the property bound %s ulp plus %s ulp rounding allowance' % (
                         b.get('path'), b.get('x_range', (0, 0))[0], b.get('x_range', (0, 0))[1], b.get('u_range'), b.get('ulp'), b.get('kernel_ulp'), b.get('reduction_const_ulp'), b.get('cody_waite_ulp'),
-                        (' -- ' + b['why']) if b.get('why') else '', float(BOUND_ULP), float(ROUNDING_ALLOWANCE_ULP)), dict(d, obligation=key))
+                        ((' -- ' + b['why']) if b.get('why') else '') + ((' -- witness: at x = %s (the float nearest to %d pi/2, reduced argument %.3g) the error of the reduction constants alone is %.6g ulp of the result' % (
+                            b['near_multiple']['x_hex'], b['near_multiple']['n'], b['near_multiple']['reduced'], b['near_multiple']['ulp'])) if b.get('near_multiple') and b['near_multiple'].get('ulp', 0) > float(THR) else ''),
+                        float(BOUND_ULP), float(ROUNDING_ALLOWANCE_ULP)), dict(d, obligation=key))
                     continue
                 if st == 'bad':
                     cw = (' -- of which %.3g ulp because the separately rounded product k*%.9g of the argument reduction is not exact (Cody-Waite needs a short leading constant when the multiply is not fused)' % (d['cody_waite_ulp'], d['cody_waite_site'])) if d.get('cody_waite_ulp', 0) > 1 else ''
                     r.violation(key, 'method error of the kernel is %.3g ulp on its reduced domain (approximation %.3g, reduction constants %.3g relative)%s: above the property bound %s ulp plus %s ulp rounding allowance' % (
                         d['ulp'], d['kernel_rel_err'], d['const_rel_err'], cw, float(BOUND_ULP), float(ROUNDING_ALLOWANCE_ULP)), dict(d, obligation=key))
-    want = sum(1 for c in cfgs for f in FUNCS if applicable(f[0], bits, c)) + len(TRIG) * len(cfgs)
+    want = sum(1 for c in cfgs for f in FUNCS if applicable(f[0], bits, c)) + (len(TRIG) + len(INV)) * len(cfgs)
+    if ncont < 30 * len(cfgs) and not r.broken:
+        r.broke('tier-continuity clause evaluated only %d switch points' % ncont)
     if nob < want and not r.broken:
         r.broke('only %d of %d kernel obligations generated' % (nob, want))
     nbad = len(set(k for (k, w, d) in r.violations))
     cov = {'explanation': 'method-error clause only: for every argument of the reduced domain, the real function denoted by the kernel (roundings erased; read off the optimised IR of the public function on %s) is within the stated number of ulps of the mathematical function, reduction constants included; rigorous rational/interval arithmetic.  The ulp bound of the property itself (accumulated rounding over all arguments) is NOT decided.' % cfgs,
-           'obligations': nob, 'discharged': nob - nbad, 'evaluations': nob, 'distinct_nontrivial': nob - nbad, 'kernels': rows[:60],
-           'functions_covered': [f[0] for f in FUNCS] + TRIG, 'threshold_ulp': float(THR), 'checker_cmd': 'python3 /verif/check.py %s --tier %s' % (pid, a.tier),
+           'obligations': nob, 'discharged': nob - nbad, 'evaluations': nob, 'distinct_nontrivial': nob - nbad, 'kernels': rows[:120], 'not_analysed': not_analysed[:30], 'switch_points_evaluated': ncont,
+           'functions_covered': [f[0] for f in FUNCS] + TRIG + INV, 'threshold_ulp': float(THR), 'checker_cmd': 'python3 /verif/check.py %s --tier %s' % (pid, a.tier),
            'trusted_base': ['clang 14 -O2 translation of the headers', 'lane-term normaliser (engine/terms.py, lanes.py)', 'engine/realfn.py (rounding-erased reading of lane terms)', 'engine/qi.py (interval arithmetic, series with tail bounds)',
                             'reviewed templates: the meaning of the non-arithmetic atoms (K = nearbyint(cX), S = 2^K, mantissa/exponent split)'],
            'rule': 'sup over the reduced domain of |kernel_real(u) / f(u) - 1| * 2^p <= %s ulp' % float(THR), 'headers_sha256': build.headers_hash()}
